@@ -18,18 +18,18 @@ const (
 
 // kind weights of the random generator (a kind is offered only when the caller contract allows it)
 var c12aWeights = []struct {
-	k opKind
+	k c12aOpKind
 	w int
 }{
-	{opSnapshot, 5}, {opRevert, 5},
-	{opCreate, 2}, {opAddBal, 2}, {opSubBal, 2}, {opSetBal, 1}, {opSetNonce, 2}, {opSetCode, 2}, {opSetState, 4},
-	{opSetTransient, 2}, {opSuicide, 2}, {opAddLog, 1}, {opAddRefund, 1}, {opSubRefund, 1}, {opALAddr, 1}, {opALSlot, 1},
-	{opPreimage, 1}, {opFinalise, 2}, {opPrepare, 2}, {opIRoot, 1}, {opCommitReopen, 1},
+	{c12aOpSnapshot, 5}, {c12aOpRevert, 5},
+	{c12aOpCreate, 2}, {c12aOpAddBal, 2}, {c12aOpSubBal, 2}, {c12aOpSetBal, 1}, {c12aOpSetNonce, 2}, {c12aOpSetCode, 2}, {c12aOpSetState, 4},
+	{c12aOpSetTransient, 2}, {c12aOpSuicide, 2}, {c12aOpAddLog, 1}, {c12aOpAddRefund, 1}, {c12aOpSubRefund, 1}, {c12aOpALAddr, 1}, {c12aOpALSlot, 1},
+	{c12aOpPreimage, 1}, {c12aOpFinalise, 2}, {c12aOpPrepare, 2}, {c12aOpIRoot, 1}, {c12aOpCommitReopen, 1},
 }
 
 // revertable = number of youngest live snapshots a revert may target. With the known finding
 // listed, snapshots older than a poisoned Suicide are not offered (counted as excluded).
-func (r *runner) revertable() (n int, restricted bool) {
+func (r *c12aRunner) revertable() (n int, restricted bool) {
 	n = len(r.live)
 	if !r.exclude {
 		return n, false
@@ -44,19 +44,19 @@ func (r *runner) revertable() (n int, restricted bool) {
 
 // genOp draws the next op so that structural and state-dependent preconditions hold by
 // construction (no rejection).
-func genOp(t *rapid.T, r *runner, rooted bool) op {
-	var kinds []opKind
+func c12aGenOp(t *rapid.T, r *c12aRunner, rooted bool) c12aOp {
+	var kinds []c12aOpKind
 	nrev, restricted := r.revertable()
 	for _, kw := range c12aWeights {
-		o := op{k: kw.k}
-		if kw.k == opRevert {
+		o := c12aOp{k: kw.k}
+		if kw.k == c12aOpRevert {
 			if nrev == 0 {
 				if restricted {
-					stats.Excluded(fpSuicideSize)
+					stats.Excluded(c12aFpSuicideSize)
 				}
 				continue
 			}
-		} else if !structOK(o, len(r.live), rooted, c12aMaxDepth) {
+		} else if !c12aStructOK(o, len(r.live), rooted, c12aMaxDepth) {
 			continue
 		}
 		for i := 0; i < kw.w; i++ {
@@ -64,31 +64,31 @@ func genOp(t *rapid.T, r *runner, rooted bool) op {
 		}
 	}
 	k := rapid.SampledFrom(kinds).Draw(t, "kind")
-	o := op{k: k}
+	o := c12aOp{k: k}
 	addr := func() int { // R (precompile) is only funded, created by a call, or listed
-		if k == opAddBal || k == opALAddr {
+		if k == c12aOpAddBal || k == c12aOpALAddr {
 			return rapid.IntRange(0, c12aNAddr-1).Draw(t, "addr")
 		}
 		return rapid.IntRange(0, c12aNAddr-2).Draw(t, "addr")
 	}
 	slot := func() int { return rapid.IntRange(0, c12aNSlot-1).Draw(t, "slot") }
 	switch k {
-	case opCreate:
-		var ok []op
+	case c12aOpCreate:
+		var ok []c12aOp
 		for a := 0; a < c12aNAddr; a++ {
-			for _, c := range []op{{k: opCreate, a: a, s: 0, v: 0}, {k: opCreate, a: a, s: 0, v: 1}, {k: opCreate, a: a, s: 1, v: 0}, {k: opCreate, a: a, s: 1, v: 1}} {
+			for _, c := range []c12aOp{{k: c12aOpCreate, a: a, s: 0, v: 0}, {k: c12aOpCreate, a: a, s: 0, v: 1}, {k: c12aOpCreate, a: a, s: 1, v: 0}, {k: c12aOpCreate, a: a, s: 1, v: 1}} {
 				if r.precond(c) {
 					ok = append(ok, c)
 				}
 			}
 		}
 		if len(ok) == 0 { // every universe address is a contract already: fund one instead
-			return op{k: opAddBal, a: addr(), v: 1}
+			return c12aOp{k: c12aOpAddBal, a: addr(), v: 1}
 		}
 		return ok[rapid.IntRange(0, len(ok)-1).Draw(t, "create")]
-	case opAddBal:
+	case c12aOpAddBal:
 		o.a, o.v = addr(), rapid.IntRange(0, 2).Draw(t, "amount")
-	case opSubBal:
+	case c12aOpSubBal:
 		o.a = addr()
 		max := 2
 		if b := r.s.GetBalance(c12aAddr[o.a]); b.IsInt64() && b.Int64() < 2 {
@@ -98,50 +98,50 @@ func genOp(t *rapid.T, r *runner, rooted bool) op {
 			}
 		}
 		o.v = rapid.IntRange(0, max).Draw(t, "amount")
-	case opSetBal:
+	case c12aOpSetBal:
 		o.a, o.v = addr(), rapid.SampledFrom([]int{0, 1, 5}).Draw(t, "amount")
-	case opSetNonce:
+	case c12aOpSetNonce:
 		o.a = addr()
 		o.v = int(r.s.GetNonce(c12aAddr[o.a])) + rapid.IntRange(0, 1).Draw(t, "bump") // callers set nonce+1 (or re-set)
-	case opSetCode:
+	case c12aOpSetCode:
 		o.a, o.v = addr(), rapid.IntRange(0, len(c12aCode)-1).Draw(t, "code")
-	case opSetState, opSetTransient:
+	case c12aOpSetState, c12aOpSetTransient:
 		o.a, o.s, o.v = addr(), slot(), rapid.IntRange(0, len(c12aVal)-1).Draw(t, "val")
-	case opSuicide, opALAddr:
+	case c12aOpSuicide, c12aOpALAddr:
 		o.a = addr()
-	case opALSlot:
+	case c12aOpALSlot:
 		o.a, o.s = addr(), slot()
-	case opAddLog:
+	case c12aOpAddLog:
 		o.a, o.v = addr(), rapid.IntRange(0, 3).Draw(t, "n")
-	case opAddRefund:
+	case c12aOpAddRefund:
 		o.v = rapid.IntRange(0, 3).Draw(t, "gas")
-	case opSubRefund:
+	case c12aOpSubRefund:
 		max := 3
 		if rf := r.s.GetRefund(); rf < 3 {
 			max = int(rf)
 		}
 		o.v = rapid.IntRange(0, max).Draw(t, "gas")
-	case opPreimage:
+	case c12aOpPreimage:
 		o.v = rapid.IntRange(0, len(c12aPre)-1).Draw(t, "pre")
-	case opRevert:
+	case c12aOpRevert:
 		o.v = rapid.IntRange(0, nrev-1).Draw(t, "depth")
 	}
 	return o
 }
 
 // shadowChecked is the shadow oracle for a history that was already executed successfully.
-func shadowChecked(t *rapid.T, env *c12aEnv, ini *initState, seq []op, spans []span, shadow []op) *violationInfo {
-	viol, bad, _ := shadowOracle(env, ini, c12aNAddr, seq, spans, shadow, true, nil, false)
+func c12aShadowChecked(t *rapid.T, env *c12aEnv, ini *c12aInitState, seq []c12aOp, spans []c12aSpan, shadow []c12aOp) *c12aViolationInfo {
+	viol, bad, _ := c12aShadowOracle(env, ini, c12aNAddr, seq, spans, shadow, true, nil, false)
 	if bad >= 0 {
-		panic(fmt.Sprintf("HARNESS: history valid when observed but op %d (%v) not applicable unobserved: %v", bad, seq[bad], opsStrings(seq)))
+		panic(fmt.Sprintf("HARNESS: history valid when observed but op %d (%v) not applicable unobserved: %v", bad, seq[bad], c12aOpsStrings(seq)))
 	}
 	return viol
 }
 
 // safeStep is runner.step with a panic inside the repository turned into a violation.
-func safeStep(r *runner, i int, o op, seq []op) (ok bool, viol *violationInfo) {
+func c12aSafeStep(r *c12aRunner, i int, o c12aOp, seq []c12aOp) (ok bool, viol *c12aViolationInfo) {
 	ok = true
-	defer recoverRepoPanic(&viol)
+	defer c12aRecoverRepoPanic(&viol)
 	return r.step(i, o, seq)
 }
 
@@ -150,32 +150,32 @@ func safeStep(r *runner, i int, o op, seq []op) (ok bool, viol *violationInfo) {
 // every RevertToSnapshot; shadow oracle at the end of the history and at every revert point.
 func TestC12A_Random(t *testing.T) {
 	env := c12aGetEnv(t)
-	exclude := stats.IsKnown(fpSuicideSize)
+	exclude := stats.IsKnown(c12aFpSuicideSize)
 	const part = "random"
 	rapid.Check(t, func(t *rapid.T) {
 		ini := &c12aInits[rapid.IntRange(0, len(c12aInits)-1).Draw(t, "init")]
 		nops := rapid.IntRange(3, c12aMaxOps).Draw(t, "nops")
 		var (
-			seq      []op
-			viol     *violationInfo
+			seq      []c12aOp
+			viol     *c12aViolationInfo
 			maxDepth int
 			effect   bool
 		)
-		main, err := newRunner(env, ini, c12aNAddr, true)
+		main, err := c12aNewRunner(env, ini, c12aNAddr, true)
 		if err != nil {
 			t.Fatalf("HARNESS: %v", err)
 		}
 		main.exclude = exclude
 		rooted := false
 		for len(seq) < nops && viol == nil {
-			o := genOp(t, main, rooted) // rapid draws stay outside of any recover()
+			o := c12aGenOp(t, main, rooted) // rapid draws stay outside of any recover()
 			seq = append(seq, o)
-			ok, v := safeStep(main, len(seq)-1, o, seq)
+			ok, v := c12aSafeStep(main, len(seq)-1, o, seq)
 			if !ok {
-				t.Fatalf("HARNESS: generated op %v not applicable (history %v)", o, opsStrings(seq))
+				t.Fatalf("HARNESS: generated op %v not applicable (history %v)", o, c12aOpsStrings(seq))
 			}
 			viol = v
-			rooted = nextRooted(o, rooted)
+			rooted = c12aNextRooted(o, rooted)
 			if len(main.live) > maxDepth {
 				maxDepth = len(main.live)
 			}
@@ -183,29 +183,29 @@ func TestC12A_Random(t *testing.T) {
 		effect = main.effective
 		if viol == nil {
 			if err := main.s.Error(); err != nil {
-				viol = &violationInfo{fp: "C12/A/dberr", msg: "StateDB.Error() set by a contract-respecting history: " + err.Error()}
+				viol = &c12aViolationInfo{fp: "C12/A/dberr", msg: "StateDB.Error() set by a contract-respecting history: " + err.Error()}
 			}
 		}
-		spans, shadow := analyse(seq)
+		spans, shadow := c12aAnalyse(seq)
 		if viol == nil {
 			func() {
-				defer recoverRepoPanic(&viol)
+				defer c12aRecoverRepoPanic(&viol)
 				// commitment after every revert point, then of the whole history
 				for i, o := range seq {
-					if o.k != opRevert || i == len(seq)-1 {
+					if o.k != c12aOpRevert || i == len(seq)-1 {
 						continue
 					}
-					psp, psh := analyse(seq[:i+1])
-					if viol = shadowChecked(t, env, ini, seq[:i+1], psp, psh); viol != nil {
+					psp, psh := c12aAnalyse(seq[:i+1])
+					if viol = c12aShadowChecked(t, env, ini, seq[:i+1], psp, psh); viol != nil {
 						viol.msg = fmt.Sprintf("[history cut after op %d] ", i) + viol.msg
 						return
 					}
 				}
-				viol = shadowChecked(t, env, ini, seq, spans, shadow)
+				viol = c12aShadowChecked(t, env, ini, seq, spans, shadow)
 			}()
 		}
 
-		sigKinds, nt, labels := labelsFor(ini, seq, spans)
+		sigKinds, nt, labels := c12aLabelsFor(ini, seq, spans)
 		_ = sigKinds
 		crossed := []string{}
 		for _, l := range labels {
@@ -232,10 +232,10 @@ func TestC12A_Random(t *testing.T) {
 		}
 		stats.Case(part, fmt.Sprintf("%s|d%d|%s", ini.name, maxDepth, strings.Join(crossed, ",")), nt, labels...)
 		if nt && stats.WantSample(part) {
-			stats.Sample(part, map[string]any{"init": ini.name, "ops": opsStrings(seq)})
+			stats.Sample(part, map[string]any{"init": ini.name, "ops": c12aOpsStrings(seq)})
 		}
 		if viol != nil {
-			reportViolation(t, part, ini, seq, shadow, viol)
+			c12aReportViolation(t, part, ini, seq, shadow, viol)
 		}
 	})
 }
@@ -249,19 +249,19 @@ func TestC12A_Regress_KnownFindings(t *testing.T) {
 	cases := []struct {
 		fp  string
 		ini int
-		seq []op
+		seq []c12aOp
 	}{
 		// contract A has one committed storage slot (size counter 1); SELFDESTRUCT inside a frame
 		// that is reverted leaves the counter at 0.
-		{fpSuicideSize, 1, []op{{k: opSnapshot}, {k: opSuicide, a: 0}, {k: opRevert, v: 0}}},
+		{c12aFpSuicideSize, 1, []c12aOp{{k: c12aOpSnapshot}, {k: c12aOpSuicide, a: 0}, {k: c12aOpRevert, v: 0}}},
 	}
 	for _, c := range cases {
 		ini := &c12aInits[c.ini]
-		spans, shadow := analyse(c.seq)
-		res := runCase(env, ini, 2, false, c.seq, spans, shadow, true, nil, true)
-		sig, _, labels := labelsFor(ini, c.seq, spans)
+		spans, shadow := c12aAnalyse(c.seq)
+		res := c12aRunCase(env, ini, 2, false, c.seq, spans, shadow, true, nil, true)
+		sig, _, labels := c12aLabelsFor(ini, c.seq, spans)
 		stats.Case(part, sig, true, append(labels, "known:"+c.fp)...)
-		stats.Sample(part, map[string]any{"init": ini.name, "ops": opsStrings(c.seq), "expect": c.fp})
+		stats.Sample(part, map[string]any{"init": ini.name, "ops": c12aOpsStrings(c.seq), "expect": c.fp})
 		switch {
 		case res.invalidAt >= 0:
 			t.Fatalf("HARNESS: regression history not applicable at op %d", res.invalidAt)
@@ -272,7 +272,7 @@ func TestC12A_Regress_KnownFindings(t *testing.T) {
 			if res.viol.fp != c.fp {
 				t.Logf("regression history of %s now reports %s", c.fp, res.viol.fp)
 			}
-			reportViolation(t, part, ini, c.seq, shadow, res.viol)
+			c12aReportViolation(t, part, ini, c.seq, shadow, res.viol)
 		}
 	}
 }
